@@ -34,7 +34,7 @@ func tagSSIParser(doc *Parser, start *Token, arguments *Parser) (INodeTag, *Erro
 
 		if arguments.Match(TokenIdentifier, "parsed") != nil {
 			// parsed
-			temporaryTpl, err := doc.template.set.FromFile(doc.template.set.resolveFilename(doc.template, fileToken.Val))
+			temporaryTpl, err := doc.template.set.fromFileRelative(doc.template, fileToken.Val)
 			if err != nil {
 				return nil, err.(*Error).updateFromTokenIfNeeded(doc.template, fileToken)
 			}
@@ -43,8 +43,11 @@ func tagSSIParser(doc *Parser, start *Token, arguments *Parser) (INodeTag, *Erro
 			// plaintext
 			// read it through the set's loaders, like every other template reference
 			var buf []byte
-			set := doc.template.set
-			_, _, fd, err := set.resolveTemplate(nil, set.resolveFilename(doc.template, fileToken.Val))
+			relativeTo := doc.template
+			if relativeTo.isTplString {
+				relativeTo = nil
+			}
+			_, _, fd, err := doc.template.set.resolveTemplate(relativeTo, fileToken.Val)
 			if err == nil {
 				buf, err = io.ReadAll(fd)
 			}
